@@ -36,3 +36,13 @@ VARIANTS = [
     # twins
     V("twin-neg-form", A, "        return misc.flatten((-g_prod, *vjp_y_and_params)).unsqueeze(0)", "        neg = -1 * g_prod\n        return misc.flatten((neg, *vjp_y_and_params)).unsqueeze(0)", expect="silent"),
 ]
+
+MISC = "torchsde/_core/misc.py"
+VARIANTS += [
+    # the autograd helpers are evaluated from their own bodies (autograd_kit)
+    V("misc-vjp-returns-reversed", MISC, "    return convert_none_to_zeros(_vjp, inputs)\n", "    return convert_none_to_zeros(_vjp, inputs)[::-1]\n", rule="R11.1"),
+    V("misc-vjp-zero-fill-from-outputs", MISC, "    return convert_none_to_zeros(_vjp, inputs)\n", "    return convert_none_to_zeros(_vjp, inputs)[:1] * len(inputs)\n", rule="R11.1"),
+    V("misc-jvp-tangent-dropped", MISC, "_jvp = torch.autograd.grad(_vjp, dummy_outputs, grad_outputs=grad_inputs, **kwargs)",
+      "_jvp = torch.autograd.grad(_vjp, dummy_outputs, grad_outputs=[g * 2 for g in grad_inputs], **kwargs)", rule="R11"),
+    V("twin-misc-vjp-temporary", MISC, "    return convert_none_to_zeros(_vjp, inputs)\n", "    out = convert_none_to_zeros(_vjp, inputs)\n    return out\n", expect="silent"),
+]
